@@ -58,6 +58,25 @@ func gen(r *sim.Rng, tier string) *sim.Case {
 		if r.Pct(15) {
 			p["limit"] = 0
 		}
+		if r.Pct(2) && n >= 1 && n <= 12 && p["limit"] > 0 {
+			// the same instance in other units: every weight times g, the limit between two
+			// multiples of g, and (often) one more item that is over the limit by less than g.
+			// Large limits (tens to hundreds of thousands) with weights that share a divisor.
+			g := []int{64, 1024, 4096, 65536}[r.N(4)]
+			if g*p["limit"] > 160000 {
+				g = 160000 / p["limit"]
+			}
+			if g >= 2 {
+				for i := range c.Ops {
+					c.Ops[i].K *= g
+				}
+				p["limit"] = p["limit"]*g + r.N(g)
+				if r.Pct(60) {
+					c.Ops = append(c.Ops, sim.Op{Op: "Item", K: p["limit"] + 1 + r.N(g), V: 1 + vdom + r.N(vdom+3)})
+				}
+				p["scaled"] = g
+			}
+		}
 		p["breaker"] = r.Pick(3, 3, 3, 1) // 0 none, 1 prefer fewer items, 2 prefer new, 3 prefer fewer and call the package from inside
 		if r.Pct(15) {
 			p["again"] = 1 // an unrelated second call before the first result is read
@@ -132,6 +151,9 @@ func exec(c *sim.Case, out *sim.WorkerOut) (*sim.Violation, bool) {
 	}
 	ranges := int(core.Probes[core.PMapRange])
 	out.Faults["map_range_order_decided_by_simulator"] += ranges
+	if c.P("scaled") > 1 {
+		out.Probes["instance_in_other_units_(weights_share_a_divisor,_large_limit)"]++
+	}
 	out.Probes["scenario:"+scenNames[scen]]++
 	c.LogHash = dg.Hex()
 	// non-trivial: at least one map range with >= 2 entries was ordered by the simulator
